@@ -22,6 +22,10 @@
 //   PE:<k>:<pf>:<cf>     ephemeral dust package: parent has a 0-value output, fee pf; child spends k=b(oth)|m(ain only)|d(ust only)
 //   PR:<i>:<t>           package RBF: parent conflicts with pool tx i and pays minrelay-1, child makes the package hit threshold t
 //   D:<f>                single tx with a dust output at fee f
+//   W:<k>                spend a P2WSH(OP_IF OP_1 OP_ELSE OP_1 OP_ENDIF) base coin with IF argument k: a=0x01 (standard),
+//                        b=0x02 (MINIMALIF: policy-only failure), c=empty (ELSE branch), d=wrong witness script (consensus failure)
+//   NF NU NI NM          always-rejected probes: non-final locktime, unsatisfied BIP68 lock, immature coinbase, missing input
+//   S:<i>                resubmit pool tx i (already in mempool)
 //   M:<k>                mine a block with the first k (0|1|a=all) pool txs in pool order
 //   MC:<i>               mine a block with a tx that conflicts with pool tx i
 //   I                    InvalidateBlock(tip)      (reorg depth 1, transactions return to the pool)
@@ -35,6 +39,7 @@
 #include <kits/chainkit.h>
 #include <vx/forksim.h>
 
+#include <addresstype.h>
 #include <chainparams.h>
 #include <consensus/tx_verify.h>
 #include <node/miner.h>
@@ -203,9 +208,13 @@ inline int RefDiagramCompare(const std::vector<RefChunk>& a, const std::vector<R
     return ab ? 1 : ba ? -1 : 0;
 }
 
+inline CScript IfScript() { return CScript() << OP_IF << OP_1 << OP_ELSE << OP_1 << OP_ENDIF; }
+inline CScript IfSpk() { return GetScriptForDestination(WitnessV0ScriptHash(IfScript())); }
+
 // ---------------------------------------------------------------------------------------------- configuration
 struct Opts {
     int base_blocks{120};
+    int script_coins{0};                 // the first script_coins base blocks pay to the IF-script coin (event W)
     int prefill{0};                      // filler txs (1-in-1-out, fee = 2x minrelay) accepted before the exploration starts
     int64_t max_size_bytes{16000};       // must be >= 40 * cluster_size_vbytes (CTxMemPool rejects smaller)
     unsigned cluster_count{4};
@@ -225,6 +234,7 @@ struct Opts {
     // time jumps only with a non-empty pool, reorgs only when they can touch the pool or a mined block
     bool guarded{false};
     bool test_before_submit{false};      // C28: run test_accept first, in the same transition
+    std::function<std::string(struct Sim&, const struct Snap&)> obs{}; // optional monitor-defined observation, captured before / between / after
     int depth_quick{3}, depth_thorough{4};
     int split{1};
     bool has(const char* c) const { return classes.count(c) > 0; }
@@ -246,6 +256,7 @@ struct Step {
     std::unique_ptr<MempoolAcceptResult> test;    // test_accept result (only with Opts.test_before_submit)
     std::unique_ptr<Snap> mid;                    // observation between test_accept and the real submission
     uint64_t key_pre{0}, key_mid{0};
+    std::string obs_pre, obs_mid;
     std::unique_ptr<MempoolAcceptResult> res;     // SUBMIT
     std::unique_ptr<PackageMempoolAcceptResult> pres; // PACKAGE
     BlockResult bres;                             // BLOCK
@@ -269,7 +280,8 @@ struct Sim {
     Opts o;
     Monitor* mon{nullptr};
     RefLedger L;
-    std::vector<BaseCoin> coins;        // coinbase outputs of the base chain, by height
+    std::vector<BaseCoin> coins;        // OP_TRUE coinbase outputs of the base chain, by height
+    std::vector<BaseCoin> wcoins;       // IF-script coinbase outputs
     std::set<Txid> fillers;
     int base_height{0};
     int64_t base_time{0};
@@ -290,10 +302,13 @@ struct Sim {
         // mock time just past the future tip, so the node is not in initial block download
         base_time = Params().GenesisBlock().nTime + 600 * (int64_t)(o.base_blocks + 1);
         SetMockTime(base_time);
-        auto hashes = MineEmpty(n, L, o.base_blocks);
-        for (auto& h : hashes) {
-            const RefBlock& rb = L.blocks.at(h);
-            coins.push_back({COutPoint(rb.block.vtx[0]->GetHash(), 0), rb.block.vtx[0]->vout[0].nValue, rb.height});
+        for (int k = 0; k < o.base_blocks; k++) {
+            BlockOpts bo;
+            if (k < o.script_coins) bo.coinbase_spk = IfSpk();
+            CBlock b = MakeBlock(n, n.tip(), {}, bo);
+            BlockResult r = n.ProcessBlock(b);
+            if (!r.pnb_ret || n.tip()->GetBlockHash() != b.GetHash()) throw std::runtime_error("poolsim: base block not accepted: " + r.reason);
+            (k < o.script_coins ? wcoins : coins).push_back({COutPoint(b.vtx[0]->GetHash(), 0), b.vtx[0]->vout[0].nValue, n.height()});
         }
         base_height = n.height();
         for (int k = 0; k < o.prefill; k++) {
@@ -638,6 +653,35 @@ struct Sim {
             auto tx = MkFee({free[0].op}, {free[0].value}, 1, [&](int64_t vs) { return FeeCode(p[1][0], vs); }, 2, 0, 0xffffffff, /*dust_out=*/true);
             if (!tx) return a;
             a.kind = Act::SUBMIT; a.txs = {tx};
+        } else if (c == "W") {
+            const BaseCoin* wc = nullptr;
+            for (auto& x : wcoins) if (s.height + 1 - x.height >= COINBASE_MATURITY && n.GetCoin(x.op) && !pool().isSpent(x.op)) { wc = &x; break; }
+            if (!wc) return a;
+            CMutableTransaction m = MakeTx({{wc->op, 0xffffffff, false}}, {{wc->value - 5000, OpTrueSpk()}, {0, CScript() << OP_RETURN << std::vector<unsigned char>{(unsigned char)p[1][0]}}});
+            CScript ws = p[1] == "d" ? (CScript() << OP_IF << OP_1 << OP_ELSE << OP_2 << OP_ENDIF) : IfScript();
+            std::vector<unsigned char> arg = p[1] == "b" ? std::vector<unsigned char>{2} : p[1] == "c" ? std::vector<unsigned char>{} : std::vector<unsigned char>{1};
+            m.vin[0].scriptWitness.stack = {arg, std::vector<unsigned char>(ws.begin(), ws.end())};
+            a.kind = Act::SUBMIT; a.txs = {MakeTransactionRef(m)};
+        } else if (c == "NF" || c == "NU" || c == "NI" || c == "NM") {
+            auto free = FreeCoins(s);
+            if (free.empty()) return a;
+            BaseCoin coin = free[0];
+            uint32_t lock = 0, seq = 0xffffffff;
+            if (c == "NF") { lock = (uint32_t)s.height + 1; seq = 0xfffffffe; }
+            if (c == "NU") { seq = (uint32_t)(s.height + 2 - coin.height); lock = 2; }
+            if (c == "NI") {
+                bool found = false;
+                for (auto& x : coins) if (s.height + 1 - x.height == COINBASE_MATURITY - 1 && n.GetCoin(x.op)) { coin = x; found = true; }
+                if (!found) return a;
+            }
+            if (c == "NM") coin.op = COutPoint(coin.op.hash, 7);
+            auto tx = MkFee({coin.op}, {coin.value}, 2, [&](int64_t vs) { return FeeCode('h', vs); }, 2, lock, seq);
+            if (!tx) return a;
+            a.kind = Act::SUBMIT; a.txs = {tx};
+        } else if (c == "S") {
+            int i = pool_idx(p[1]);
+            if (i < 0) return a;
+            a.kind = Act::SUBMIT; a.txs = {s.txs[i].tx};
         } else if (c == "M") {
             size_t k = p[1] == "a" ? s.txs.size() : std::min<size_t>(s.txs.size(), atoi(p[1].c_str()));
             if (p[1] != "0" && s.txs.empty()) return a;
@@ -721,6 +765,8 @@ struct Sim {
         if (o.has("PK3")) for (char pf : o.pk_parent) for (char cf : o.pk_child) cand.push_back("PK:3:" + S(pf) + ":" + S(cf));
         if (o.has("PE")) { for (const char* k : {"b", "m", "d"}) cand.push_back(std::string("PE:") + k + ":z:k"); cand.push_back("PE:b:m:k"); }
         if (o.has("D")) { cand.push_back("D:z"); cand.push_back("D:h"); }
+        if (o.has("W")) for (const char* k : {"a", "b", "c", "d"}) cand.push_back(std::string("W:") + k);
+        if (o.has("NX")) { for (const char* k : {"NF", "NU", "NI", "NM"}) cand.push_back(k); if (!addr.empty()) cand.push_back("S:0"); }
         if (o.has("P") && o.prio_next) cand.push_back("P:n:+");
         if (o.has("M")) { cand.push_back("M:0"); cand.push_back("M:1"); cand.push_back("M:a"); }
         if (o.has("I")) cand.push_back("I");
@@ -756,9 +802,11 @@ struct Sim {
         case Act::SUBMIT: {
             if (o.test_before_submit) {
                 st.key_pre = KeyOf(st.pre);
+                if (o.obs) st.obs_pre = o.obs(*this, st.pre);
                 st.test = std::make_unique<MempoolAcceptResult>(n.SubmitTx(a.txs[0], /*test_accept=*/true));
                 st.mid = std::make_unique<Snap>(Take());
                 st.key_mid = KeyOf(*st.mid);
+                if (o.obs) st.obs_mid = o.obs(*this, *st.mid);
             }
             st.res = std::make_unique<MempoolAcceptResult>(n.SubmitTx(a.txs[0]));
             break;
